@@ -273,6 +273,49 @@ theorem C31_full_false : ¬ C31_full := by
   revert this
   decide
 
+/-! ### fixed-range (CSE) arrays break the invariant (finding F31b) -/
+
+/-- the full statement for the CSE writer: evaluating a fixed-range array keeps the invariant -/
+def C31_cse_full : Prop :=
+  ∀ (g : Grid Nat) (r c : Nat) (v : Nat), SpillInv bEx0 g → SpillInv bEx0 (evalCse g r c v)
+
+/-- A1:B2 is a (not yet evaluated) CSE array; a dynamic formula was then typed into B2 -/
+def gC0 : Grid Nat :=
+  set (set (set (set (fun _ _ => .empty) 1 1 (.anchor .cse 2 2 0)) 1 2 (.plain 0)) 2 1 (.plain 0))
+    2 2 (.anchor .dyn 1 1 0)
+
+theorem gC0_inv : SpillInv bEx0 gC0 := by
+  refine ⟨?_, ?_⟩
+  · intro i j ar ac v h
+    simp only [gC0, set] at h
+    repeat (split at h; · cases h)
+    cases h
+  · intro r c w h v ha
+    simp only [gC0, set] at ha
+    split at ha
+    · rename_i hrc
+      cases ha
+      refine ⟨Nat.le_refl _, Nat.le_refl _, by rw [hrc.1]; decide, by rw [hrc.2]; decide, ?_⟩
+      intro i j hin hne
+      unfold inBlock at hin
+      exact absurd ⟨by omega, by omega⟩ hne
+    · repeat (split at ha; · cases ha)
+      cases ha
+
+/-- F31b.  B2 (dynamic, evaluated in phase 1) spills into B3; the CSE array A1:B2 (phase 2) then
+    overwrites B2: B3 stays behind as a spill cell of a cell that is no array formula.  (The real
+    engine does the same when the two formulas are entered without an evaluation in between.) -/
+theorem C31_cse_full_false : ¬ C31_cse_full := by
+  intro h
+  have hinv : SpillInv bEx0 (evalDyn bEx0 valsEx0 gC0 2 2 (.array ⟨2, 1, fun _ _ => 0⟩)) :=
+    evalDyn_inv bEx0 valsEx0 gC0 2 2 _ gC0_inv
+  have h2 := (h _ 1 1 0 hinv).spillOk 3 2 2 2 0 (by decide)
+  obtain ⟨k, w, h', v', hanc, _, _⟩ := h2
+  have hcell : evalCse (evalDyn bEx0 valsEx0 gC0 2 2 (.array ⟨2, 1, fun _ _ => 0⟩)) 1 1 0 2 2
+      = .spill 1 1 0 := by decide
+  rw [hcell] at hanc
+  cases hanc
+
 /-! ### non-vacuity: a concrete sheet -/
 
 /-- B1 = dynamic anchor currently 1×3 (B1:B3), B4 = user value, D1 = dynamic anchor 1×1 -/
